@@ -56,7 +56,7 @@ var rewrites = map[string]map[string]string{
 		"Rename": "Rename", "Remove": "Remove", "RemoveAll": "RemoveAll", "Mkdir": "Mkdir",
 		"MkdirAll": "MkdirAll", "ReadDir": "ReadDir", "Chmod": "Chmod", "Truncate": "Truncate",
 		"Open": "Open", "Create": "Create", "OpenFile": "OpenFile", "CreateTemp": "CreateTemp",
-		"MkdirTemp": "MkdirTemp", "Args": "Args()", "File": "File", "Symlink": "Symlink", "Readlink": "Readlink",
+		"MkdirTemp": "MkdirTemp", "Args": "Args()", "File": "File", "Symlink": "Symlink", "Readlink": "Readlink", "Link": "Link", "SameFile": "SameFile",
 	},
 	"path/filepath": {"Abs": "Abs", "EvalSymlinks": "EvalSymlinks"},
 	"io/ioutil":     {"ReadFile": "ReadFile", "WriteFile": "WriteFile", "TempFile": "CreateTemp", "TempDir": "MkdirTemp"},
@@ -77,7 +77,7 @@ var keepalive = map[string]string{
 
 // selectors that touch the environment but have no seam: reported.
 var unsim = map[string][]string{
-	"os":            {"Link", "Chown", "Lchown", "Chtimes", "DirFS", "CopyFS", "StartProcess", "Pipe", "NewFile", "SameFile", "FindProcess", "Getppid", "Getuid", "Setenv", "Unsetenv", "Clearenv", "UserCacheDir", "UserConfigDir", "ReadLink"},
+	"os":            {"Chown", "Lchown", "Chtimes", "DirFS", "CopyFS", "StartProcess", "Pipe", "NewFile", "FindProcess", "Getppid", "Getuid", "Setenv", "Unsetenv", "Clearenv", "UserCacheDir", "UserConfigDir", "ReadLink"},
 	"path/filepath": {"Walk", "WalkDir", "Glob"},
 	"time":          {"Sleep", "After", "Tick", "NewTimer", "NewTicker", "AfterFunc", "Until"},
 	"reflect":       {"MapRange", "MapKeys"},
